@@ -24,6 +24,7 @@ DECIDES = (
     ' functions.mirror_matrix equals I - 2 n n^T entry by entry in a polynomial domain (C09.MIRROR-MATRIX); a freshly created element is attached to one slot only (C09.NO-SHARED-PARTS); no function closing over self is kept in an instance that copy.deepcopy must duplicate (part of C09.DEEP-COPY).'
     ' Overrides delegating to super().<same method> forward every shared parameter (C09.SUPER-FORWARDING); no array parameter is read after a whole-array in-place update of self (C09.INPLACE-THEN-READ); a side-effecting parts getter is read after self.center (C09.INVALIDATE-LAST); no function modifies an object it was handed, beyond eight confirmed ones (C09.ARGUMENTS-UNTOUCHED).'
     " Sense of rotation of angle-and-axis edges under mirror/rotate: axis sign x angle sign x traversal direction equals the determinant, for edges of a face, of an operation's faces and of its sides (C09.ARC-SENSE); no measured length stored as a snapshot (C09.LIVE-LENGTHS); coordinates stored as private copies (C09.PRIVATE-COORDINATES); curves read their points through live array objects (C09.LIVE-ARRAYS)."
+    ' CircleCurve.mirror turns the normal into -M(normal) (C09.MIRROR-SENSE, exact); the displacement is copied before parts are moved in place (C09.DISPLACEMENT-COPIED); averages over point collections keep the coordinate axis (C09.AVERAGE-AXIS); directions derived as differences of points are used normalised (C09.UNIT-AXIS); closures returned by factory methods read only fixed configuration (part of C09.DEEP-COPY).'
 )
 NOT_DECIDED = "numeric equality of the transformed entity with an independently transformed output."
 ASSUMPTIONS = [
